@@ -243,6 +243,7 @@ func (e *Engine) runHarness(fn *ssa.Function, h *HarnessDef, tier string) *Harne
 		e.cfg.Deadline = time.Now().Add(time.Duration(s) * time.Second)
 	}
 	e.noMerging = noMergingFlag || h.opt("merge", "0") != "1"
+	e.ifConv = h.opt("ifconv", "0") == "1" && !noIfConvFlag
 	t0 := time.Now()
 	st := &State{heap: Heap{base: e.base, objs: map[int]*Obj{}, owned: map[int]bool{}}, known: map[*Term]uint64{}}
 	st.frames = []*Frame{newFrame(fn, nil, nil, retTop)}
@@ -420,8 +421,8 @@ func cmdDev(args []string) int {
 	}
 	rc := 0
 	runGroup(sel, *tier, "DEV", !*noReplay, func(h *HarnessDef, r *HarnessResult, ev *HarnessEvidence, confirmed []*Violation, unconfirmed []*Violation) {
-		fmt.Printf("%s: merges=%d status=%s paths=%d asserts=%d(unsat %d, unk %d) queries=%d solver=%.2fs wall=%.2fs cuts=%v reached=%v missing=%v\n",
-			h.Func, r.Merges, ev.Status, r.Paths, r.Asserts, r.AssertsUnsat, r.AssertsUnk, r.Stats.Queries, r.Stats.Dur.Seconds(), r.Wall, r.Cuts, ev.Reached, ev.MissingMarker)
+		fmt.Printf("%s: ifconv=%d merges=%d status=%s paths=%d asserts=%d(unsat %d, unk %d) queries=%d solver=%.2fs wall=%.2fs cuts=%v reached=%v missing=%v\n",
+			h.Func, r.IfConv, r.Merges, ev.Status, r.Paths, r.Asserts, r.AssertsUnsat, r.AssertsUnk, r.Stats.Queries, r.Stats.Dur.Seconds(), r.Wall, r.Cuts, ev.Reached, ev.MissingMarker)
 		for _, v := range confirmed {
 			fmt.Printf("  CONFIRMED %s %q: %s\n   %s\n", v.Kind, v.Label, v.Msg, fmtVec(v.Vector))
 			rc = 1
